@@ -72,9 +72,9 @@ theorem zstdLoop_enc_spec (hL : ZEncContract L Dec) {s : ZState τ} {x y : Bytes
         · omega
         · rw [hpf] at h; simp at h
       · have hPf : Proto f fl inp' := by
-          intro hf
+          refine ⟨hP.1, fun hf => ?_⟩
           rcases hf1 hf with h | ⟨h1, h2⟩
-          · obtain ⟨h1, h2⟩ := hP h
+          · obtain ⟨h1, h2⟩ := hP.2 h
             exact ⟨h1, by rw [hinp, h2]; simp⟩
           · exact ⟨h1, by rw [hinp, h2]; simp⟩
         obtain ⟨hne, hcl, hol⟩ := hL.ok inp' room' fl hRf hPf hr0
@@ -388,7 +388,7 @@ theorem encStep_end_full {P : Params} {s : Enc} {x y : Bytes} {fin : Bool} {inp 
     · rename_i hc
       simp only [Bool.and_eq_true, encFin, Bool.or_eq_true, decide_eq_true_eq] at hc
       rcases hc.1 with h | h
-      · exact (hP (hR.2 h)).1
+      · exact (hP.2 (hR.2 h)).1
       · exact h.1
     · cases he
   · have : room = 0 := by omega
